@@ -41,7 +41,7 @@ def run(lines, out, args):
                 I = InterfaceClass(twin_of.__name__ if twin_of is not None else "I%d_%s" % (serial, f[1]), tuple(ifs[int(b)] for b in lst(f[2])) or (Interface,), attrs, __module__="zi.gen")
                 for e in lst(f[4]):
                     t, v = e.split(":")
-                    I.setTaggedValue(t, int(v))
+                    I.setTaggedValue(t, None if int(v) == 999 else int(v))      # 999 stands for a tag whose value is None
                 invs = []
                 for e in (lst(f[5]) if f[5] != "E" else []):
                     k, fl = e.split(":")
@@ -100,7 +100,7 @@ def run(lines, out, args):
                     if v is not default and I.queryTaggedValue(t, v) != v:
                         notes.append("DISAGREE-tag-default %s" % t)
                     if v is not default:
-                        tv.append("%s=%d" % (t, v))
+                        tv.append("%s=%d" % (t, 999 if v is None else v))
                 for t in ("zz_absent",):
                     if I.queryTaggedValue(t, default) is not default:
                         notes.append("PHANTOM-tag")
